@@ -225,4 +225,15 @@ theorem progress {cap : Nat} {P O E : List Nat} {c : Nat} {s : Sys} (h : Inv cap
 theorem step_decreases {s s' : Sys} (hs : Step s s') : s'.measure < s.measure := by
   cases hs <;> simp_all [Sys.measure, pRank, cRank, b2n, List.length_take, List.length_drop] <;> omega
 
+
+theorem ReachN.reach {s0 s : Sys} {n : Nat} (h : ReachN s0 n s) : Reach s0 s := by
+  induction h with
+  | init => exact .init
+  | step _ hs ih => exact .step ih hs
+
+theorem ReachN.bound {s0 s : Sys} {n : Nat} (h : ReachN s0 n s) : n + s.measure ≤ s0.measure := by
+  induction h with
+  | init => simp
+  | step _ hs ih => have := step_decreases hs; omega
+
 end Nstd.Args.Kernel
